@@ -170,3 +170,8 @@ impl<T: Copy> Out<T> {
         o
     }
 }
+
+impl<I: VecIndex, T: VecValue + Copy> crate::TypedVec for Mock<I, T> {
+    type I = I;
+    type T = T;
+}
